@@ -51,12 +51,12 @@ def excluded_flags(prof):
     return sorted(k for k in list(FLAG_FINDINGS) if not prof.get(k))
 
 
-def evaluate(mset, backends=('json',), genTexts=False, keep_layout=False, seps=None):
+def evaluate(mset, backends=('json',), genTexts=False, keep_layout=False, seps=None, dialect=None):
     """Run the pipeline and both oracles. Returns (compiled, mismatches) with mismatches =
     [(backend, facet, detail)]."""
     tf = (lambda symbol, text: text) if keep_layout else None
     norm = (lambda t: t) if keep_layout else oracle.norm_default
-    c = pipeline.run_set(mset, backends=backends, genTexts=genTexts, textFilter=tf, seps=seps)
+    c = pipeline.run_set(mset, backends=backends, genTexts=genTexts, textFilter=tf, seps=seps, dialect=dialect)
     mm = []
     for (mname, stage), e in c.errors.items():
         mm.append((stage, 'compile-failed', '%s: %s: %r' % (mname, stage, e)))
